@@ -446,10 +446,16 @@ func genValue(t *rapid.T, depth int) any {
 		}
 		return s
 	default:
-		l := rapid.IntRange(0, 2).Draw(t, "mlen")
+		l := rapid.IntRange(0, 3).Draw(t, "mlen")
 		m := ordered.NewMap[string, any](l)
 		for i := 0; i < l; i++ {
 			m.Set(rapid.SampledFrom(smallKeys).Draw(t, "mk"), genValue(t, depth+1))
+		}
+		// a nested map (possibly inside a list) with a history of its own: a vacated slot that is not
+		// compacted away. Content and order are what they were; an independently built copy has no such slot.
+		if m.Len() >= 2 && rapid.Bool().Draw(t, "nestedhistory") {
+			m.Set("\x00gone", 0)
+			m.Delete("\x00gone")
 		}
 		return m
 	}
